@@ -24,6 +24,7 @@ type recConn struct {
 	once   sync.Once
 	fail   bool          // WriteTo returns an error (fault injection)
 	stall  chan struct{} // when set, WriteTo blocks until it is closed (a slow or stalled transmit path)
+	hook   func(b []byte) // when set, called inside WriteTo after the frame was recorded (a station that answers before the write returns)
 }
 
 // setStall makes every following WriteTo block; the returned function releases them.
@@ -65,7 +66,11 @@ func (c *recConn) WriteTo(b []byte, _ net.Addr) (int, error) {
 	cp := append([]byte(nil), b...)
 	c.mu.Lock()
 	c.frames = append(c.frames, sentFrame{cp, time.Now()})
+	hook := c.hook
 	c.mu.Unlock()
+	if hook != nil {
+		hook(cp)
+	}
 	return len(b), nil
 }
 
